@@ -256,12 +256,12 @@ func (g *generator) walkAllOf(schema *openapi3.Schema) (ast.Type, error) {
 
 func (g *generator) walkOneOf(schema *openapi3.Schema) (ast.Type, error) {
 	discriminator, mapping := g.getDiscriminator(schema)
-	return g.walkDisjunctions(schema.OneOf, discriminator, mapping)
+	return g.walkDisjunctions(schema.OneOf, discriminator, mapping, schema.Default)
 }
 
 func (g *generator) walkAnyOf(schema *openapi3.Schema) (ast.Type, error) {
 	discriminator, mapping := g.getDiscriminator(schema)
-	return g.walkDisjunctions(schema.AnyOf, discriminator, mapping)
+	return g.walkDisjunctions(schema.AnyOf, discriminator, mapping, schema.Default)
 }
 
 func (g *generator) walkEnum(schema *openapi3.Schema) (ast.Type, error) {
@@ -288,7 +288,7 @@ func (g *generator) walkEnum(schema *openapi3.Schema) (ast.Type, error) {
 	return ast.NewEnum(enums, ast.Default(schema.Default)), nil
 }
 
-func (g *generator) walkDisjunctions(schemaRefs []*openapi3.SchemaRef, discriminator string, mapping map[string]string) (ast.Type, error) {
+func (g *generator) walkDisjunctions(schemaRefs []*openapi3.SchemaRef, discriminator string, mapping map[string]string, defaultValue any) (ast.Type, error) {
 	typeDefs := make([]ast.Type, 0, len(schemaRefs))
 	for _, schemaRef := range schemaRefs {
 		def, err := g.walkSchemaRef(schemaRef)
@@ -299,7 +299,7 @@ func (g *generator) walkDisjunctions(schemaRefs []*openapi3.SchemaRef, discrimin
 		typeDefs = append(typeDefs, def)
 	}
 
-	return ast.NewDisjunction(typeDefs, ast.Discriminator(discriminator, mapping)), nil
+	return ast.NewDisjunction(typeDefs, ast.Discriminator(discriminator, mapping), ast.Default(defaultValue)), nil
 }
 
 func (g *generator) getDiscriminator(schema *openapi3.Schema) (string, map[string]string) {
